@@ -4,8 +4,11 @@
    switch whose selected case is shared with another consumer, a one-of with a failing candidate -- with a write-once, gated
    store) and every schedule incl. cancellation: no node id is saved twice, what is handed to the store is never a Recurrent
    marker or a contained failure, and a write-once store never makes the run fail (the outcome is the reference's).
-   FALSE in general: known finding D15d (a node inside a recurrent subgraph is saved once per iteration) and D9s. The equality
-   "saved value = value the consumers received" is decided on the implementation by the oracle only. *)
+   FALSE in general: known finding D15d (a node inside a recurrent subgraph is saved once per iteration) and D9s.
+   Kind G (ALL programs, all schedules): what is handed to the store is never a Recurrent marker or a contained failure
+   (C19_no_marker_or_failure_is_saved), and it is the value that was stored as the node's result just before
+   (C19_saved_value_is_the_stored_result).  That consumers receive that stored result is C03 (kind F on plain programs), and
+   otherwise decided on the implementation by the oracle. *)
 From MLPE Require Import Engine.Run Spec.Dataflow Proofs.ExecLemmas Explore.StateEq Explore.Erase Explore.Explorer Explore.Safe
      Catalogue.Programs Catalogue.Certified Proofs.CertLemmas.
 
@@ -30,19 +33,20 @@ Proof.
 Qed.
 Print Assumptions C19_saved_at_most_once.
 
-(* ---- kind F: ALL plain programs (no switch, no one-of, no body asking for another iteration; any size, any shape, any retry
-   settings, any event managers, any store, gated or not, any collaborator faults), ALL schedules incl. cancellation ----
-   what is handed to the artifact store is never a Recurrent marker or a contained failure. *)
-From MLPE Require Import Proofs.PlainWorld Proofs.PlainLive.
+(* ---- kind G: ALL programs (every construct, any bodies, any retry settings, any event managers, any store, gated or not, any
+   collaborator faults), ALL schedules incl. cancellation ---- *)
+From MLPE Require Import Proofs.PlainWorld Proofs.PlainLive Proofs.SavesAll.
 
-Theorem C19_on_plain_programs_no_marker_or_failure_is_saved :
-  forall P, plain_prog P ->
-    forall st n v, reachable P st -> In (OSave n v) (st_trace st) -> is_rec v = false /\ is_exn v = false.
-Proof.
-  intros P HP st n v Hr Hin. pose proof (plain_prog_values_in_flight P st _ HP Hr Hin) as H. cbn [obs_clean] in H.
-  split; [apply clean_not_rec|apply clean_not_exn]; exact H.
-Qed.
-Print Assumptions C19_on_plain_programs_no_marker_or_failure_is_saved.
+Theorem C19_no_marker_or_failure_is_saved :
+  forall P st n v, reachable P st -> In (OSave n v) (st_trace st) -> is_rec v = false /\ is_exn v = false.
+Proof. intros P st n v Hr. exact (no_marker_or_failure_is_saved_all_programs P st Hr n v). Qed.
+Print Assumptions C19_no_marker_or_failure_is_saved.
+
+(* the history is newest first: in [a ++ OSave n v :: b], b is what happened before the save *)
+Theorem C19_saved_value_is_the_stored_result :
+  forall P st, reachable P st -> forall a b n v, st_trace st = a ++ OSave n v :: b -> In (OSetResult n v) b.
+Proof. exact saved_value_was_stored_all_programs. Qed.
+Print Assumptions C19_saved_value_is_the_stored_result.
 
 (* the hypothesis is met by catalogue programs, and saves do happen *)
 Example C19_plain_not_vacuous :
